@@ -1,4 +1,4 @@
-CONSTANTS CliInit = 2 SrvMax = 2 MaxHist = 2 MaxSteps = 2 Window = 1 CliStart = "none" KeepLog = TRUE Faults = TRUE
+CONSTANTS CliInit = 2 SrvMax = 2 MaxHist = 2 MaxSteps = 2 Window = 1 CliStart = "none" KeepLog = TRUE Faults = TRUE Crossing = TRUE
 SPECIFICATION Spec
 VIEW view
 PROPERTY FailAtomic
